@@ -14,7 +14,7 @@ def short(o):
     o = re.sub(r" status=.*", "", o)
     o = re.sub(r"^\(\*?([a-z]+\.)?", "(", o)
     return o[:110]
-rows = {"r1": [], "r2": [], "r3": [], "r4": [], "benign": []}
+rows = {"r1": [], "r2": [], "r3": [], "r4": [], "r5": [], "benign": []}
 for name in sorted(res):
     d = f"{V}/seeded/{name}"
     try: meta = json.load(open(d + "/meta.json"))
@@ -22,14 +22,14 @@ for name in sorted(res):
     fn = ", ".join(meta.get("functions", []))[:70]
     kind = meta.get("kind", "")
     caught = [(c, o) for c, rc, o in res[name] if rc == "1"]
-    grp = "benign" if name.startswith("benign/") else ("r2" if "-r2-" in name else ("r3" if "-r3-" in name else ("r4" if "-r4-" in name else "r1")))
+    grp = "benign" if name.startswith("benign/") else ("r2" if "-r2-" in name else ("r3" if "-r3-" in name else ("r4" if "-r4-" in name else ("r5" if "-r5-" in name else "r1"))))
     if grp == "benign":
         rows[grp].append(f"| {name.replace('benign/','')} | {kind[:40]} | {fn} | {'ALARM: ' + short(caught[0][1]) if caught else 'quiet'} |")
     else:
         rows[grp].append(f"| {name} | {fn} | {('yes (' + caught[0][0] + '): ' + short(caught[0][1])) if caught else '**no**'} |")
 nb = sum('ALARM' in r for r in rows['benign'])
-titles = {"r1": "Round 1 (functions named by the property)", "r2": "Round 2 (other functions than round 1)", "r3": "Round 3 (other functions than rounds 1-2)", "r4": "Round 4 (other functions than rounds 1-3)"}
-for g in ("r1", "r2", "r3", "r4"):
+titles = {"r1": "Round 1 (functions named by the property)", "r2": "Round 2 (other functions than round 1)", "r3": "Round 3 (other functions than rounds 1-2)", "r4": "Round 4 (other functions than rounds 1-3)", "r5": "Round 5 (one per property, other functions than rounds 1-4; five properties yielded none)"}
+for g in ("r1", "r2", "r3", "r4", "r5"):
     if not rows[g]: continue
     n = sum('**no**' not in r for r in rows[g])
     print(f"\n{titles[g]}: {n} of {len(rows[g])} detected.\n")
